@@ -115,6 +115,29 @@ def compare(res, m, desc, replay, first):
                                                                 'got': a['validator'], 'expected': ev})
                     if a['has_default'] != (f.default is not None):
                         bad('field_default_flag', 'struct_field', {'struct': d.name, 'field': f.name})
+                    elif f.default is not None:
+                        # a defaulted field is readable before it is ever written: the
+                        # descriptor must hold a value of the field's kind, a ready
+                        # instance of the union for a tag default
+                        if f.default[0] == 'tag':
+                            tgt = m.target(f.type)
+                            # the ready instance of an inherited tag belongs to the
+                            # union that declares the tag
+                            decl = tgt
+                            while not any(t.name == f.default[1] for t in m.own_fields(decl)) \
+                                    and decl.parent:
+                                decl = m.lookup(*decl.parent)
+                            if not any(t.name == f.default[1] for t in m.own_fields(decl)):
+                                # implicit catch-all: lives on the first open union of the chain
+                                decl = [u for u in m.chain(tgt) if not u.closed][0]
+                            exp_d = ['union', decl.name, f.default[1]]
+                        else:
+                            exp_d = None
+                        got_d = a.get('default')
+                        if (exp_d is not None and got_d != exp_d) or got_d == ['NoneType']:
+                            bad('field_default_value_kind', 'struct_field',
+                                {'struct': d.name, 'field': f.name, 'got': got_d, 'expected': exp_d})
+                        res.see('struct_field_default', f.default[0])
                     res.see('struct_field', 'inherited' if f not in m.own_fields(d) else 'own',
                             'foreign_type' if f.type.kind == 'ref' and f.type.ns != d.ns else 'local')
                 res.see('struct', 'child' if d.parent else 'top',
